@@ -59,6 +59,9 @@ pub struct CaseStats {
     pub txs: usize,
     pub workers: usize,
     pub readback_keys: u64,
+    pub unknown_code_requests: u64,
+    /// workload reach probes measured on the reference run (name, count)
+    pub workload: Vec<(&'static str, u64)>,
 }
 
 pub struct CaseOutput {
@@ -96,6 +99,78 @@ pub fn fault_class(s: &Scenario) -> FaultClass {
 fn fnv64(h: &mut u64, v: u64) {
     *h ^= v;
     *h = h.wrapping_mul(0x0000_0100_0000_01b3);
+}
+
+/// What the generated block actually exercised, measured on the in-order reference.
+fn workload_reach(block: &RefBlock, bundle: &revm_database::BundleState, pl: &PrecompileLog) -> Vec<(&'static str, u64)> {
+    use revm_context::result::ExecutionResult;
+    use revm_database::AccountStatus;
+    let mut v: Vec<(&'static str, u64)> = Vec::new();
+    let mut add = |k: &'static str, n: u64| {
+        if n > 0 {
+            v.push((k, n));
+        }
+    };
+    let mut success = 0;
+    let mut revert = 0;
+    let mut halt = 0;
+    let mut skipped = 0;
+    let mut created = 0;
+    let mut logs = 0;
+    for st in &block.steps {
+        match &st.outcome {
+            TxExecutionOutcome::Executed(ExecutionResult::Success { logs: l, output, .. }) => {
+                success += 1;
+                logs += l.len() as u64;
+                if matches!(output, revm_context::result::Output::Create(..)) {
+                    created += 1;
+                }
+            }
+            TxExecutionOutcome::Executed(ExecutionResult::Revert { .. }) => revert += 1,
+            TxExecutionOutcome::Executed(ExecutionResult::Halt { .. }) => halt += 1,
+            TxExecutionOutcome::Skipped(_) => skipped += 1,
+        }
+    }
+    add("workload.tx_success", success);
+    add("workload.tx_revert", revert);
+    add("workload.tx_halt", halt);
+    add("workload.tx_skipped_invalid", skipped);
+    add("workload.tx_create_success", created);
+    add("workload.logs", logs);
+    add("workload.reference_fatal_error", block.error.is_some() as u64);
+    let mut destroyed = 0;
+    let mut destroyed_changed = 0;
+    let mut destroyed_again = 0;
+    let mut in_memory = 0;
+    let mut delegations = 0;
+    let mut storage_changes = 0;
+    for acc in bundle.state.values() {
+        match acc.status {
+            AccountStatus::Destroyed => destroyed += 1,
+            AccountStatus::DestroyedChanged => destroyed_changed += 1,
+            AccountStatus::DestroyedAgain => destroyed_again += 1,
+            AccountStatus::InMemoryChange => in_memory += 1,
+            _ => {}
+        }
+        if let Some(info) = &acc.info &&
+            let Some(code) = &info.code &&
+            code.is_eip7702()
+        {
+            delegations += 1;
+        }
+        storage_changes += acc.storage.len() as u64;
+    }
+    add("workload.account_destroyed", destroyed);
+    add("workload.account_destroyed_changed", destroyed_changed);
+    add("workload.account_destroyed_again", destroyed_again);
+    add("workload.account_created_in_memory", in_memory);
+    add("workload.account_with_delegation_after_block", delegations);
+    add("workload.new_contracts", bundle.contracts.len() as u64);
+    add("workload.storage_slots_changed", storage_changes);
+    add("workload.precompile_calls_in_reference", pl.calls.load(std::sync::atomic::Ordering::Relaxed));
+    add("workload.precompile_static_mutation_refused", pl.static_mutations_refused.load(std::sync::atomic::Ordering::Relaxed));
+    add("workload.precompile_halts", pl.halts.load(std::sync::atomic::Ordering::Relaxed));
+    v
 }
 
 fn outcomes_of(block: &RefBlock) -> Vec<TxExecutionOutcome> {
@@ -164,6 +239,7 @@ pub fn run_pipeline_case(
         ref_second = Some(reference::run_reference_block(&mut ref_state, &s.evm, block2, txs2, &pcs_ref, true));
     }
     let ref_bundle = reference::take_ref_bundle(&mut ref_state, want.retention());
+    let workload_probes = workload_reach(&ref_first, &ref_bundle, &precompile_log_ref);
     let faulty = (fclass == FaultClass::PersistentErrors).then(|| {
         let db_f = SimDb::from_scenario(s, true, false);
         let mut st_f = reference::new_ref_state(&db_f, s.bundle_update);
@@ -207,6 +283,7 @@ pub fn run_pipeline_case(
         reference_error: ref_first.error.is_some() || faulty.as_ref().is_some_and(|(b, _)| b.error.is_some()),
         txs: s.txs.len(),
         workers: s.grevm.concurrency,
+        workload: workload_probes,
         ..CaseStats::default()
     };
 
@@ -257,6 +334,7 @@ pub fn run_pipeline_case(
             stats.db_errors_once = db.stats.errors_once.load(std::sync::atomic::Ordering::Relaxed);
             stats.db_errors_nth = db.stats.errors_nth.load(std::sync::atomic::Ordering::Relaxed);
             stats.db_panics = db.stats.panics.load(std::sync::atomic::Ordering::Relaxed);
+            stats.unknown_code_requests = db.stats.unknown_code_requests.load(std::sync::atomic::Ordering::Relaxed);
             let pl = &out.precompile_log;
             stats.precompile_calls = pl.calls.load(std::sync::atomic::Ordering::Relaxed);
             stats.precompile_fatals = pl.fatals.load(std::sync::atomic::Ordering::Relaxed);
@@ -332,7 +410,12 @@ pub fn run_pipeline_case(
                     let clean_exp = outcomes_of(&ref_first);
                     // which reference failure (if any) does this error reproduce?
                     let matches_ref = |r: &Option<(usize, revm_context::result::EVMError<crate::simdb::SimDbError>)>| {
-                        r.as_ref().is_some_and(|(rk, re)| *rk == k && format!("{re:?}") == *error)
+                        // revm's `State` (the reference's database stack) wraps the database error in
+                        // `EvmDatabaseError`, whose Display adds a "Database error: " prefix where a
+                        // precompile facade renders the error as text; the wrapper is not Grevm's.
+                        r.as_ref().is_some_and(|(rk, re)| {
+                            *rk == k && format!("{re:?}").replace("Database error: ", "") == error.replace("Database error: ", "")
+                        })
                     };
                     match fclass {
                         FaultClass::None | FaultClass::PersistentErrors => {
@@ -341,9 +424,11 @@ pub fn run_pipeline_case(
                             // An earlier faulty read may have been absorbed by Grevm's committed cache
                             // (it caches created contracts; revm's State does not): a database error on
                             // a faulty key at a LATER index is then still faithful.
+                            let names_faulty_key = s.faults.iter().any(|f| error.contains(&format!("{:?}", f.key)));
                             let later_faulty_key = !genuine &&
                                 *kind == ErrKind::Database &&
-                                faulty_err.as_ref().is_some_and(|(rk, _)| k > *rk) &&
+                                names_faulty_key &&
+                                faulty_err.as_ref().is_some_and(|(rk, _)| k >= *rk) &&
                                 ref_first.error.is_none();
                             if !genuine && !later_faulty_key {
                                 let class = if ref_first.error.is_none() && faulty_err.is_none() { "spurious_error" } else { "wrong_error" };
@@ -376,7 +461,8 @@ pub fn run_pipeline_case(
                         FaultClass::TransientErrors | FaultClass::Panics => {
                             // reported: a database error (or the genuine fault-free failure) with an
                             // exact k-prefix of the fault-free run
-                            if *kind != ErrKind::Database && !matches_ref(&ref_first.error) {
+                            let db_fault = *kind == ErrKind::Database || error.contains("simulated database fault");
+                            if !db_fault && !matches_ref(&ref_first.error) {
                                 findings.push(finding("C04", "transient.wrong_error_kind", format!("tx {k}: {error}")));
                             }
                             if actual_outcomes.len() != k {
@@ -454,9 +540,25 @@ pub fn run_pipeline_case(
                         }
                         ReadKey::BlockHash(_) => None,
                     };
+                    // an account that carries code must have that code served by hash as well
+                    let diff = diff.or_else(|| {
+                        let ReadKey::Basic(a) = &key else { return None };
+                        let info = revm::Database::basic(&mut ref_state, *a).ok().flatten()?;
+                        if info.is_empty_code_hash() {
+                            return None;
+                        }
+                        let expected = match &info.code {
+                            Some(c) => c.original_bytes(),
+                            None => revm::Database::code_by_hash(&mut ref_state, info.code_hash).ok()?.original_bytes(),
+                        };
+                        let served = state.code_by_hash_ref(info.code_hash).ok().map(|c| c.original_bytes());
+                        (served.as_ref() != Some(&expected))
+                            .then(|| format!("code of account {a} (hash {}) is served by hash as {served:?}, expected {expected:?}", info.code_hash))
+                    });
                     if let Some(d) = diff {
                         let class = match &key {
                             ReadKey::Storage(..) => "readback.storage",
+                            ReadKey::Basic(_) if d.starts_with("code of account") => "readback.code_by_hash",
                             ReadKey::Basic(_) => "readback.basic",
                             _ => "readback.code",
                         };
@@ -593,6 +695,46 @@ pub fn run_relation_case(scenario: &Arc<Scenario>, sched: &SchedSpec, replay: Op
         summaries.push(RunSummary { name: name.to_string(), call: summarise_call(Some(&call)), outcomes, bundle });
     }
     stats.completed = summaries.len() == 5;
+
+    // C13 fundability invariant: with balance reservation on (Prague+), a delegated account that holds
+    // at block start at least the saturating sum of the maximum costs of its own block transactions
+    // is never skipped for lack of funds.
+    if s.grevm.reserve_delegated_balance && s.evm.spec >= revm_primitives::hardfork::SpecId::PRAGUE {
+        for acc in &s.pre_state {
+            let is_delegated = acc.code.len() == 23 && acc.code.starts_with(&[0xef, 0x01, 0x00]);
+            if !is_delegated {
+                continue;
+            }
+            let mut required = revm_primitives::U256::ZERO;
+            let mut own: Vec<usize> = Vec::new();
+            for (i, t) in s.txs.iter().enumerate() {
+                if t.caller == acc.address {
+                    let fee = revm_primitives::U256::from(t.gas_limit) * revm_primitives::U256::from(t.gas_price);
+                    required = required.saturating_add(fee).saturating_add(t.value);
+                    own.push(i);
+                }
+            }
+            // only blocks without authorisation lists (the delegation is stable for the whole block)
+            let stable = s.txs.iter().all(|t| t.auths.is_empty());
+            if own.is_empty() || acc.balance < required || !stable {
+                continue;
+            }
+            for summary in &summaries {
+                for &i in &own {
+                    if let Some(TxExecutionOutcome::Skipped(grevm::InvalidTransaction::LackOfFundForMaxFee { .. })) = summary.outcomes.get(i) {
+                        findings.push(finding(
+                            "C13",
+                            "fundability",
+                            format!(
+                                "{}: tx {i} of delegated account {} skipped for lack of funds although the account held {} >= {} at block start",
+                                summary.name, acc.address, acc.balance, required
+                            ),
+                        ));
+                    }
+                }
+            }
+        }
+    }
 
     if let Some((first, rest)) = summaries.split_first() {
         for other in rest {
